@@ -43,7 +43,18 @@ func perturbBody(c *core.Case, body *gen.Body, want map[*gen.Attr]cty.Value, lab
 	var bodies []*gen.Body
 	body.Walk(func(b *gen.Body, d int) { bodies = append(bodies, b) })
 	b := gen.Pick(r, bodies)
-	switch r.Intn(9) {
+	switch r.Intn(10) {
+	case 9: // an attribute set to null (a value of no particular type)
+		for _, a := range b.Attrs() {
+			na := &gen.Attr{Name: a.Name, Expr: gen.Null()}
+			want[na] = cty.NullVal(cty.DynamicPseudoType)
+			for i, it := range b.Items {
+				if it.Attr == a {
+					b.Items[i] = &gen.Item{Attr: na}
+				}
+			}
+			return "null-literal"
+		}
 	case 8: // an attribute whose expression fails at evaluation time
 		for _, a := range b.Attrs() {
 			na := &gen.Attr{Name: a.Name, Expr: gen.Var("nosuchvar", cty.DynamicPseudoType)}
@@ -177,6 +188,58 @@ func c08Case(c *core.Case) {
 			c.Violation("type-nonconformance/BlockMapSpec-multi-label-empty", fmt.Sprintf("decoding an empty body with a two-label BlockMapSpec gives %s, implied type is %s", valStr(val), hcldec.ImpliedType(spec).FriendlyName()), nil)
 		}
 		c.NonTrivial("directed:blockmap-empty")
+		return
+	}
+	if c.Index%50 == 1 {
+		// directed: collection-of-blocks specs over an attribute of no particular
+		// type. Blocks whose results cannot be unified must be answered with an
+		// error (the implementation says "Unconsistent argument types"), never a panic.
+		vals := []string{"null", "{ x = 1 }", "\"s\"", "1", "[1]", "{}", "true", "[]", "{ x = \"s\" }", "{ y = 1 }"}
+		n := 2 + r.Intn(2)
+		src := ""
+		for i := 0; i < n; i++ {
+			src += "b {\n  a = " + gen.Pick(r, vals) + "\n}\n"
+		}
+		nested := hcldec.ObjectSpec{"a": &hcldec.AttrSpec{Name: "a", Type: cty.DynamicPseudoType}}
+		var spec hcldec.Spec
+		kind := gen.Pick(r, []string{"list", "set", "tuple", "object"}) // (BlockMapSpec documents that it does not take attributes of type any: it panics by design)
+		switch kind {
+		case "list":
+			spec = &hcldec.BlockListSpec{TypeName: "b", Nested: nested}
+		case "set":
+			spec = &hcldec.BlockSetSpec{TypeName: "b", Nested: nested}
+		case "tuple":
+			spec = &hcldec.BlockTupleSpec{TypeName: "b", Nested: nested}
+		default:
+			// labelled
+			src = ""
+			for i := 0; i < n; i++ {
+				src += fmt.Sprintf("b \"l%d\" {\n  a = %s\n}\n", i, gen.Pick(r, vals))
+			}
+			if kind == "map" {
+				spec = &hcldec.BlockMapSpec{TypeName: "b", LabelNames: []string{"k"}, Nested: nested}
+			} else {
+				spec = &hcldec.BlockObjectSpec{TypeName: "b", LabelNames: []string{"k"}, Nested: nested}
+			}
+		}
+		c.SetInput(fmt.Sprintf("%s\nSPEC: Block%sSpec over AttrSpec{a, any}", src, kind))
+		f, pd := hclsyntax.ParseConfig([]byte(src), "d.hcl", hcl.InitialPos)
+		if pd.HasErrors() {
+			panic("C08 directed body does not parse: " + src)
+		}
+		val, diags := hcldec.Decode(f.Body, spec, nil)
+		c.Evals(1)
+		c.Count("directed:dynamic-attribute-under-Block" + kind + "Spec")
+		if errs := val.Type().TestConformance(hcldec.ImpliedType(spec)); len(errs) > 0 {
+			cls := "type-nonconformance/dynamic-attribute-under-Block" + kind + "Spec"
+			if val.RawEquals(cty.DynamicVal) && strings.Contains(diagStr(diags), "Unconsistent argument types") {
+				// the adjudicated shape: the error is reported, the value is cty.DynamicVal
+				cls = "type-nonconformance/Block" + kind + "Spec-unconsistent-types-answered-with-DynamicVal"
+			}
+			c.Violation(cls, fmt.Sprintf("%v\nvalue %s\ndiagnostics: %s", errs, valStr(val), diagStr(diags)), nil)
+			return
+		}
+		c.NonTrivial("directed:" + src + kind)
 		return
 	}
 	labelCounts := map[string]int{}
